@@ -18,9 +18,20 @@ def request_for(cmd, version):
     return reqs.make(cmd, rng, 5 if version == 2 else 1)[0]
 
 
-def run_plan(plan, version, fault_kind_impl=None):
+NO_HEARTBEAT = {"signerHeartbeat", "uiHeartbeat"}       # the SGX / TCPSigner simulators have no heartbeat apps
+
+
+def platform_for(plan, k):
+    """A share of the plans runs on the TCP-transport dongle classes (HSM2DongleSGX / HSM2DongleTCP override
+    connect and disconnect): every third plan whose commands exist there."""
+    if plan["cmd"] in NO_HEARTBEAT or plan["follow"] in NO_HEARTBEAT:
+        return "ledger"
+    return {1: "sgx", 2: "tcp"}.get(k % 6, "ledger")
+
+
+def run_plan(plan, version, fault_kind_impl=None, platform="ledger"):
     """One history on a fresh serving manager: faulted command, then follow-ups."""
-    world, proto = mgr.serving_manager(version=version)
+    world, proto = mgr.serving_manager(version=version, platform=platform)
     init_seq = [e["apdu"] for e in world.log if e["ev"] == "apdu"]
     ninit = len(init_seq)
     events = []
@@ -110,19 +121,22 @@ def run(ctx):
         ctx.rng.shuffle(order)
         if version == 2:
             order = order[:ctx.pick(1400, len(order))]
-        for pi in order:
+        for k, pi in enumerate(order):
             plan = plans[pi]
-            ev, ninit, first_len = run_plan(plan, version)
+            plat = platform_for(plan, k)
+            ev, ninit, first_len = run_plan(plan, version, platform=plat)
             if first_len is not None and plan["pos"] > STEPS[plan["cmd"]]:
                 drift += 1
             tid = len(traces) + 1
             traces.append({"id": tid, "ninit": ninit, "deverr_abs": 905 if version == 2 else 2, "ev": ev})
-            info[tid] = {"plan": plan, "version": version}
+            info[tid] = {"plan": plan, "version": version, "platform": plat}
     for n in ("NegOwed", "NegRepairs"):
         rn = tlc.run("Link", n + "_Link.cfg", workers=4)
         if not rn.violated:
             raise core.MachineryError("vacuity guard %s did not fire" % n)
     res.coverage["behaviours_replayed"] = len(traces)
+    res.coverage["behaviours_by_platform"] = {k: sum(1 for x in info.values() if x.get("platform") == k)
+                                              for k in ("ledger", "sgx", "tcp")}
     verdicts, stats = tlc.validate("TraceLink", "Trace_Link.cfg", traces)
     res.checker_cmds.append("tlc -workers 1 -config Trace_Link.cfg TraceLink (x%d shards)" % stats["jvms"])
     accepted = 0
@@ -140,10 +154,11 @@ def run(ctx):
             continue
         sig = "%s|v%d cmd=%s pos=%d kind=%s connfail=%d follow=%s%s" % (
             v["clause"], 5 if inf["version"] == 2 else 1, p["cmd"], p["pos"], p["kind"], p["connfail"],
-            p["follow"] if v["at"] > 3 else "*", (" bringup-timeout@%d" % p["btimeout"]) if p.get("btimeout") else "")
+            p["follow"] if v["at"] > 3 else "*", (" bringup-timeout@%d" % p["btimeout"]) if p.get("btimeout") else "") + \
+            ((" plat=%s" % inf["platform"]) if inf.get("platform", "ledger") != "ledger" else "")
         res.violation(sig, "link-failure handling violates %s at event %s: %s" % (
             v["clause"], v["at"], json.dumps(p, sort_keys=True)),
-            {"plan": p, "version": inf["version"], "events": t["ev"], "verdict": v})
+            {"plan": p, "version": inf["version"], "platform": inf.get("platform", "ledger"), "events": t["ev"], "verdict": v})
     res.add_validation(stats, accepted)
     from .. import manager_phase
     manager_phase.run_phase(ctx, res, "C11")
@@ -161,7 +176,7 @@ def run(ctx):
 def replay(ctx, path):
     with open(path) as f:
         d = json.load(f)["replay"]
-    ev, ninit, _ = run_plan(d["plan"], d["version"])
+    ev, ninit, _ = run_plan(d["plan"], d["version"], platform=d.get("platform", "ledger"))
     t = {"id": 1, "ninit": ninit, "deverr_abs": 905 if d["version"] == 2 else 2, "ev": ev}
     verdicts, _ = tlc.validate("TraceLink", "Trace_Link.cfg", [t])
     print(json.dumps({"plan": d["plan"], "events": ev, "verdict": verdicts[1]}, indent=1))
